@@ -24,6 +24,9 @@ package main
 //	                                     SortByIndex index comparators read the elements through: the receiver (sidx, iidx), the slice
 //	                                     the Stream was made from (sidxb, iidxb), a second Stream over that slice (sidxc, iidxc), a
 //	                                     value copy of the receiver's header (sidxh)
+//	L <api> <cmp|stack> <n> <m> <k>:     LONG list, generated on both sides: record i has A = (i*m)%k, C = (i/3)%2, B = "a", D = "x";
+//	                                     api a comparator API (then <cmp>) or a descriptor API (then <stack>)
+//	O <api> f|g: v ; v ; ...             float64 / float32 instantiation of SortOrdered*: integral values and -0 (ties that can be told apart)
 //	C <api> <cmp>: rec ; rec ; ...       api = sort | slice | ssort | sidx | isort | iidx
 //	                                           (Sort, SortSlice, Stream.Sort, Stream.SortByIndex, ForInterface twins)
 //	                                     cmp = a< | a> | am | b< | ab | no   (strict weak orders, several with many ties)
@@ -37,6 +40,7 @@ package main
 
 import (
 	"fmt"
+	"math"
 	"math/rand"
 	"strconv"
 	"strings"
@@ -245,20 +249,44 @@ func c19Run(line string) string {
 	if len(head) == 4 && head[0] == "N" {
 		return c19RunNil(head, toks)
 	}
+	var recs []c19Rec
+	if len(head) == 6 && head[0] == "L" {
+		n, e1 := strconv.Atoi(head[3])
+		m, e2 := strconv.Atoi(head[4])
+		k, e3 := strconv.Atoi(head[5])
+		if e1 != nil || e2 != nil || e3 != nil || k <= 0 || n < 0 || n > 20000 || m < 0 {
+			return "bad-case"
+		}
+		recs = make([]c19Rec, n)
+		for j := range recs {
+			recs[j] = c19Rec{ID: j, A: fpgo.NewComparableOrdered((j * m) % k), B: fpgo.NewComparableString("a"),
+				C: fpgo.NewComparableOrdered((j / 3) % 2), D: fpgo.NewComparableOrdered("x")}
+		}
+		kind := "D"
+		if c19Cmp(head[2]) != nil {
+			kind = "C"
+		}
+		head = []string{kind, head[1], head[2]}
+	}
 	if len(head) != 3 {
 		return "bad-case"
 	}
 	api := head[1]
 	if head[0] == "O" {
+		if head[2] == "f" || head[2] == "g" {
+			return c19RunOrderedFloat(api, head[2], toks)
+		}
 		return c19RunOrdered(api, head[2], toks)
 	}
-	recs := make([]c19Rec, len(toks))
-	for k, t := range toks {
-		r, ok := c19ParseRec(k, t)
-		if !ok {
-			return "bad-case"
+	if recs == nil {
+		recs = make([]c19Rec, len(toks))
+		for k, t := range toks {
+			r, ok := c19ParseRec(k, t)
+			if !ok {
+				return "bad-case"
+			}
+			recs[k] = r
 		}
-		recs[k] = r
 	}
 	switch head[0] {
 	case "F":
@@ -710,6 +738,66 @@ func c19RunTypes(api string, items []string, recs []c19Rec) string {
 		}()
 	}
 	return strings.Join(outs, " | ")
+}
+
+func c19SortOrderedT[T fpgo.Ordered](api string, vals []T) ([]T, bool) {
+	switch api {
+	case "asc":
+		return fpgo.SortOrderedAscending(vals...), true
+	case "desc":
+		return fpgo.SortOrderedDescending(vals...), true
+	case "so+":
+		return fpgo.SortOrdered(true, vals...), true
+	case "so-":
+		return fpgo.SortOrdered(false, vals...), true
+	}
+	return nil, false
+}
+
+// float instantiations: integral values and -0; -0 and +0 are equal for < but distinguishable (math.Signbit)
+func c19RunOrderedFloat(api, ty string, toks []string) string {
+	vals := make([]float64, len(toks))
+	for k, t := range toks {
+		if t == "-0" {
+			vals[k] = math.Copysign(0, -1)
+			continue
+		}
+		v, err := strconv.Atoi(t)
+		if err != nil {
+			return "bad-case"
+		}
+		vals[k] = float64(v)
+	}
+	var out []float64
+	if ty == "f" {
+		o, ok := c19SortOrderedT(api, vals)
+		if !ok {
+			return "bad-case"
+		}
+		out = o
+	} else {
+		v32 := make([]float32, len(vals))
+		for k, v := range vals {
+			v32[k] = float32(v)
+		}
+		o, ok := c19SortOrderedT(api, v32)
+		if !ok {
+			return "bad-case"
+		}
+		out = make([]float64, len(o))
+		for k, v := range o {
+			out[k] = float64(v)
+		}
+	}
+	s := make([]string, len(out))
+	for k, v := range out {
+		if v == 0 && math.Signbit(v) {
+			s[k] = "-0"
+		} else {
+			s[k] = strconv.Itoa(int(v))
+		}
+	}
+	return "[" + strings.Join(s, " ") + "]"
 }
 
 func c19RunOrdered(api, ty string, toks []string) string {
@@ -1320,6 +1408,51 @@ func c19Gen(tier string, rng *rand.Rand, emit func(string)) map[string]interface
 		}
 		emit("O " + c19OrdApis[rng.Intn(4)] + " " + ty + ": " + strings.Join(l, " ; "))
 		counts["randomO"]++
+	}
+
+	// (6b) float instantiations of SortOrdered*: -0 / +0 are ties that can be told apart (stability is observable)
+	fvals := []string{"0", "-0", "1", "-1"}
+	for _, api := range c19OrdApis {
+		for _, ty := range []string{"f", "g"} {
+			counts["exhOf"] += c19Lists(fvals, 4, func(body string) { emit("O " + api + " " + ty + ": " + body) })
+		}
+	}
+	for i := 0; i < nRandO; i++ {
+		n := rng.Intn(61)
+		l := make([]string, n)
+		dom := []string{"0", "-0", "0", "-0", "1", "-1", "2"}
+		for j := range l {
+			l[j] = dom[rng.Intn(len(dom))]
+		}
+		emit("O " + c19OrdApis[rng.Intn(4)] + " " + []string{"f", "g"}[rng.Intn(2)] + ": " + strings.Join(l, " ; "))
+		counts["randomOf"]++
+	}
+
+	// (7) LONG lists with heavy ties, crossing typical algorithm thresholds; every entry point
+	longNs := []int{1023, 1024, 1025, 2048, 5000}
+	if thorough {
+		longNs = []int{255, 256, 257, 511, 512, 513, 1023, 1024, 1025, 2047, 2048, 2049, 4096, 5000, 8192, 10000}
+	}
+	longCmpApis := []string{"sort", "slice", "ssort", "isort", "sidx", "iidxb"}
+	longDescApis := []string{"sl", "sb", "tl", "bs", "slp", "bsp"}
+	longStacks := []string{"fA+", "tA-", "fC+,tA-", "tC-,fA+"}
+	li := 0
+	for _, n := range longNs {
+		reps := 2
+		if thorough {
+			reps = 3
+		}
+		for rep := 0; rep < reps; rep++ {
+			m := 1 + 2*rng.Intn(50)
+			k := []int{2, 3, 5, 7}[rng.Intn(4)]
+			tail := " " + strconv.Itoa(n) + " " + strconv.Itoa(m) + " " + strconv.Itoa(k) + ":"
+			for j := 0; j < 3; j++ {
+				emit("L " + longCmpApis[li%6] + " " + []string{"a<", "am", "a>"}[(li/6)%3] + tail)
+				emit("L " + longDescApis[li%6] + " " + longStacks[(li/6)%4] + tail)
+				li++
+				counts["long"] += 2
+			}
+		}
 	}
 
 	stats := map[string]interface{}{
